@@ -51,6 +51,18 @@ class MigCtx(Ctx):
         self.externals[os.path.dirname] = lambda interp, p: p.rsplit("/", 1)[0]
         self.externals[os.path.abspath] = lambda interp, p: p
         self.externals[os.unlink] = self.x_unlink
+        self.externals[open] = self.x_open
+
+    def x_open(self, interp, p, mode="r", *a, **k):
+        """builtin open: a read of a file that does not exist raises FileNotFoundError; opening for writing is an effect (the file is
+        created / truncated in place -- no temporary file, no os.replace)"""
+        g = self.ghost
+        if any(c in mode for c in "wax+"):
+            g["fx"].append(("open-for-writing-in-place", p, mode))
+            return SFileW(g, p)
+        if p not in g["exists"]:
+            raise RaiseSignal(FileNotFoundError(2, "No such file or directory", p))
+        raise Unsupported("reading a file in the migration")
 
     def x_unlink(self, interp, p):
         self.ghost["fx"].append(("os.unlink", p))
@@ -63,6 +75,21 @@ class MigCtx(Ctx):
         return NotImplemented
 
 
+class SFileW(Sym):
+    def __init__(self, g, p):
+        self.g, self.p = g, p
+
+    def sym_with(self, interp, body):
+        return body(self)
+
+    def sym_getattr(self, ex, name):
+        if name == "write":
+            return NativeStub(lambda data: self.g["fx"].append(("file.write", self.p)), "file.write")
+        if name == "close":
+            return NativeStub(lambda: None, "file.close")
+        raise Unsupported(f"file.{name}")
+
+
 class SDocW(Sym):
     def __init__(self, g):
         self.g = g
@@ -73,7 +100,7 @@ class SDocW(Sym):
 
 class MigrateV1V2(Contract):
     target = f"{V12}._migrate_v1_to_v2"
-    properties = ("C20",)
+    properties = ("C10", "C20")
     ctx_class = MigCtx
     inline = ("signac._config._get_project_config_fn",)
 
